@@ -131,6 +131,10 @@ class TU:
         self.records = {}               # qualified record name -> [ctor loc keys]
         self.funcs = {}                 # loc key -> dict
         self.id2loc = {}                # function decl id -> loc key
+        self.typedefs = {}              # qualified typedef / alias name -> underlying type
+        self.record_names = set()       # qualified names of the classes of namespace Tins
+        self.record_short = set()       # their last components (a local class is named without qualification)
+        self.fn_names = set()           # names of the functions declared in namespace Tins
 
     # ---- names
     def rel(self, f):
@@ -152,6 +156,19 @@ class TU:
     def pass_ctx(self, n, qual):
         k = n.get("kind")
         q = qual
+        if k in FUNC_KINDS and n.get("name"):
+            self.fn_names.add(n["name"])
+        if k in ("TypedefDecl", "TypeAliasDecl") and n.get("name"):
+            t = n.get("type", {})
+            base = qual
+            pid = n.get("parentDeclContextId")
+            if pid and pid in self.qual:
+                base = self.qual[pid]
+            full = (base + "::" if base else "") + n["name"]
+            under = norm(t.get("desugaredQualType") or t.get("qualType") or "")
+            if under and "type-parameter" not in under:
+                self.typedefs.setdefault(full, under)
+                self.typedefs.setdefault(re.sub(r"^Tins::", "", full), under)
         if k in CTX_KINDS:
             name = n.get("name") or ("(anonymous)" if k == "NamespaceDecl" else "(unnamed)")
             base = qual
@@ -159,6 +176,10 @@ class TU:
             if pid and pid in self.qual:
                 base = self.qual[pid]
             q = (base + "::" if base else "") + name
+            if k != "NamespaceDecl":
+                self.record_names.add(q)
+                self.record_names.add(re.sub(r"^Tins::", "", q))
+                self.record_short.add(name)
             self.qual.setdefault(n["id"], q)
             if n.get("previousDecl"):
                 self.qual.setdefault(n["previousDecl"], q)
@@ -260,32 +281,84 @@ class TU:
         return e
 
     def text(self, e):
-        """source text of the expression: where it is SPELLED when the whole expression is spelled in one file (an argument
-        of a macro such as TINS_UNLIKELY(...) is spelled at the call), else where it is expanded"""
+        """source text of the expression.  Spelled in one file (plain code, or an argument of a macro such as
+        TINS_UNLIKELY(...)): that text.  Produced by a macro body (`TINS_UNLIKELY(x)` = `__builtin_expect((x), 0)`): the
+        macro invocation as written at the expansion site, name and parenthesised arguments."""
         rng = e.get("range", {})
+        b, en = rng.get("begin", {}), rng.get("end", {})
+        if not isinstance(b, dict) or not isinstance(en, dict):
+            return "<" + e.get("kind", "?") + ">"
+        body_macro = "expansionLoc" in b and not b.get("spellingLoc", {}).get("isMacroArgExpansion") and \
+            not b.get("expansionLoc", {}).get("isMacroArgExpansion")
+        if body_macro:
+            x = b["expansionLoc"]
+            try:
+                f = x["file"]
+                if f not in G._SRC:
+                    G._SRC[f] = open(f, "rb").read()
+                src = G._SRC[f].decode("utf-8", "replace") if isinstance(G._SRC[f], bytes) else G._SRC[f]
+                raw = G._SRC[f]
+                i = x["offset"]
+                j = i + x.get("tokLen", 0)
+                k = j
+                while k < len(raw) and raw[k:k + 1] in (b" ", b"\t", b"\n", b"\r"):
+                    k += 1
+                if raw[k:k + 1] == b"(":
+                    depth = 0
+                    while k < len(raw):
+                        c = raw[k:k + 1]
+                        if c == b"(":
+                            depth += 1
+                        elif c == b")":
+                            depth -= 1
+                            if depth == 0:
+                                j = k + 1
+                                break
+                        k += 1
+                return norm(raw[i:j].decode("utf-8", "replace"))
+            except (KeyError, OSError):
+                pass
         for pick in ("spellingLoc", "expansionLoc"):
             try:
-                b, en = rng["begin"], rng["end"]
-                b, en = b.get(pick, b), en.get(pick, en)
-                if b.get("file") and b.get("file") == en.get("file") and en["offset"] >= b["offset"]:
-                    t = G.src_text({"begin": {k: v for k, v in b.items() if k not in ("spellingLoc", "expansionLoc")},
-                                    "end": {k: v for k, v in en.items() if k not in ("spellingLoc", "expansionLoc")}})
+                bb, ee = b.get(pick, b), en.get(pick, en)
+                if bb.get("file") and bb.get("file") == ee.get("file") and ee["offset"] >= bb["offset"]:
+                    t = G.src_text({"begin": {k: v for k, v in bb.items() if k not in ("spellingLoc", "expansionLoc")},
+                                    "end": {k: v for k, v in ee.items() if k not in ("spellingLoc", "expansionLoc")}})
                     if t:
                         return norm(t)
             except (KeyError, TypeError):
                 pass
         return "<" + e.get("kind", "?") + ">"
 
-    def is_class_name(self, t):
-        """is the (desugared) type a class / struct type (anything that is not a scalar, pointer or dependent name)"""
+    def resolve(self, t):
+        """the type behind typedefs declared in namespace Tins (clang does not desugar the pointee of `const data_type *`)"""
         t = base_type(t)
+        for _ in range(6):
+            u = self.typedefs.get(t) or self.typedefs.get(re.sub(r"^Tins::", "", t))
+            if u is None:
+                break
+            t = base_type(u)
+        return t
+
+    def is_class_name(self, t):
+        """is the type certainly a class / struct type?  Unknown names count as NOT a class (the conservative direction:
+        a pointer to them is then a raw pointer)"""
+        if re.search(r"\b(struct|class|union)\b", t):
+            return True
+        t = self.resolve(t)
         if not t or t in SCALARS or is_ptr(t) or t.startswith("enum ") or t.startswith("<"):
             return False
-        if re.fullmatch(r"[A-Z]", t) or re.fullmatch(r"(typename )?[A-Za-z_]+::[a-z_]+_type", t):
-            return False          # template parameter / dependent member type
         if re.search(r"\[[0-9]*\]$", t):
             return False
-        return True
+        b = re.sub(r"<.*>", "", t)
+        if b in self.record_names or ("Tins::" + b) in self.record_names or ("::" not in b and b in self.record_short):
+            return True
+        if b.startswith("std::") or b.startswith("__gnu_cxx::") or b.startswith("boost::"):
+            return True
+        if "<" in t:                     # an instantiated template that is no typedef of a scalar
+            return True
+        return b in ("pcap_t", "FILE", "bpf_program", "pcap_pkthdr", "timeval", "sockaddr", "sockaddr_in", "sockaddr_in6",
+                     "sockaddr_ll", "ifaddrs", "EVP_MD", "HMAC_CTX", "AES_KEY", "RC4_KEY", "pcap_dumper_t", "pcap_if_t")
 
     def raw_ptr(self, t):
         """pointer to a non-class, non-function object type (bytes, integers, void, dependent T)"""
@@ -306,6 +379,21 @@ class TU:
             return None, c.get("name") or c.get("member") or "?", c.get("kind") != "UnresolvedLookupExpr"
         return None, "?", False
 
+    def tins_callee(self, call, name, member):
+        ch = G.children(call)
+        c = self.strip_implicit(ch[0]) if ch else {}
+        if member and c.get("kind") == "MemberExpr" and G.children(c):
+            t = qt(G.children(c)[0])
+            if is_ptr(t):
+                t = pointee(t)
+            return self.is_tins_record(t)
+        return False          # a free function whose declaration is not in the dump is foreign (std::copy, memcpy, …)
+
+    def is_tins_record(self, t):
+        t = self.resolve(t)
+        b = re.sub(r"<.*>", "", t)
+        return b in self.record_names or ("Tins::" + b) in self.record_names or t.startswith("Tins::")
+
     def add_site(self, f, kind, e):
         f["sites"].append((kind, self.text(e)))
 
@@ -314,10 +402,12 @@ class TU:
         t = qt(a)
         if not self.raw_ptr(t):
             return False
-        if base_type(pointee(t)) == "char":
+        if self.resolve(pointee(t)) == "char":
             return False          # a C string (exception texts, inet_pton, HWAddress("..")): not bytes from the wire
+        if a.get("kind") == "CXXDefaultArgExpr":
+            return False          # a default argument (`const data_type* data = 0`)
         s = self.strip_implicit(a)
-        if s.get("kind") in ("StringLiteral", "CXXNullPtrLiteralExpr", "GNUNullExpr", "CXXThisExpr", "PredefinedExpr"):
+        if s.get("kind") in ("StringLiteral", "CXXNullPtrLiteralExpr", "GNUNullExpr", "CXXThisExpr", "PredefinedExpr", "CXXDefaultArgExpr"):
             return False
         if s.get("kind") == "IntegerLiteral":
             return False
@@ -358,9 +448,25 @@ class TU:
             return b["referencedDecl"].get("id")
         return None
 
+    def option_call(self, a, member):
+        """the declaration id O when `a` is `O.member()` on a (reference to a) PDUOption O"""
+        a = self.strip_implicit(a)
+        while a.get("kind") in ("CXXStaticCastExpr", "CStyleCastExpr") and a.get("castKind") in ("NoOp", "IntegralCast") and G.children(a):
+            a = self.strip_implicit(G.children(a)[0])
+        if a.get("kind") != "CXXMemberCallExpr":
+            return None
+        ch = G.children(a)
+        if len(ch) != 1 or ch[0].get("kind") != "MemberExpr" or ch[0].get("name") != member:
+            return None
+        b = self.strip_implicit(G.children(ch[0])[0]) if G.children(ch[0]) else {}
+        if b.get("kind") == "DeclRefExpr" and "PDUOption" in qt(b):
+            return b.get("referencedDecl", {}).get("id")
+        return None
+
     def pass_kind(self, args, w):
         """how a call hands raw pointers on: `forward` (the function's own unmodified (pointer, size) parameter pair),
-        `streamRest` ((S.pointer(), S.size()) of one stream S), else `ptrPass`"""
+        `streamRest` ((S.pointer(), S.size()) of one stream S), `optionData` ((O.data_ptr(), O.data_size()) of one PDUOption O),
+        else `ptrPass`"""
         kinds = set()
         for i, a in enumerate(args):
             if not self.ptr_operand(a):
@@ -376,6 +482,10 @@ class TU:
             sv = self.stream_call(a, "pointer")
             if sv is not None and nxt is not None and self.stream_call(nxt, "size") == sv:
                 kinds.add("streamRest")
+                continue
+            ov = self.option_call(a, "data_ptr")
+            if ov is not None and nxt is not None and self.option_call(nxt, "data_size") == ov:
+                kinds.add("optionData")
                 continue
             kinds.add("ptrPass")
         return kinds.pop() if len(kinds) == 1 else "ptrPass"
@@ -417,7 +527,7 @@ class TU:
                 t = qt(ch[0])
                 if is_ptr(t) and self.strip_implicit(ch[0]).get("kind") != "CXXThisExpr":
                     site("deref")
-            elif op in ("++", "--") and ch and self.raw_ptr(qt(ch[0])):
+            elif op in ("++", "--") and ch and is_ptr(qt(ch[0])):
                 site("ptrArith")
         elif k == "ArraySubscriptExpr" and ch:
             b = ch[0]
@@ -438,7 +548,7 @@ class TU:
                     site("arrow")
         elif k in ("BinaryOperator", "CompoundAssignOperator"):
             op = n.get("opcode", "")
-            if op in ("+", "-", "+=", "-=") and self.raw_ptr(qt(n)):
+            if op in ("+", "-", "+=", "-=") and is_ptr(qt(n)):
                 site("ptrArith")
         elif k in ("CStyleCastExpr", "CXXReinterpretCastExpr", "CXXStaticCastExpr", "CXXFunctionalCastExpr"):
             ck = n.get("castKind")
@@ -463,6 +573,12 @@ class TU:
                 if has_ptr:
                     site(self.pass_kind(args, f))
             elif did is None and name != "?":
+                f["calls"].append(("name", name))
+                if has_ptr:
+                    site(self.pass_kind(args, f))
+            elif self.tins_callee(n, name, member):
+                # the declaration is not in the (filtered) dump -- an instantiation clang printed by reference only -- but the
+                # object is a class of namespace Tins / the name is a function of namespace Tins: followed by name
                 f["calls"].append(("name", name))
                 if has_ptr:
                     site(self.pass_kind(args, f))
@@ -789,7 +905,7 @@ def key_nat(s):
 
 
 KINDS = ["deref", "subscript", "arraySubscript", "arrow", "memcpy", "memcmp", "memset", "stdCopy", "externCall", "ptrPass",
-         "forward", "streamRest", "castToStruct", "castPtr", "ptrArith"]
+         "forward", "streamRest", "optionData", "castToStruct", "castPtr", "ptrArith"]
 
 
 def render_lean(g):
@@ -884,7 +1000,7 @@ def main(argv=None):
                 have = set()
             have = {h.replace('\\"', '"').replace("\\\\", "\\") for h in have}
             for r in g["rows"]:
-                if r["kind"] not in ("guard", "forward", "streamRest") and r["key"] not in have:
+                if r["kind"] not in ("guard", "forward", "streamRest", "optionData") and r["key"] not in have:
                     print(f"  (rk% {lstr(r['key'])}, .unmodelled \"?\"),")
         if a.list or a.all:
             for r in (g["all_rows"] if a.all else g["rows"]):
